@@ -98,7 +98,12 @@ NatKind(t) == CASE t = "tinyint" -> "int8" [] t = "smallint" -> "int16" [] t = "
 ScalarTypes == IntColTypes \cup TextTypes \cup UuidTypes \cup {"boolean", "float", "double", "decimal", "time", "timestamp", "inet", "date", "duration"}
 \* null / nil pointers / pointer chains at top level
 NullCases ==
-  {Case("null", NT(t), ScalarP, KK("nil"), VNull) : t \in ScalarTypes}
+  {Case("null", TInt, ScalarP, KPtr(KK(g)), VNull) : g \in UserKinds}           \* nil pointer to a user Marshaler type: null
+  \cup {Case("null", TInt, ScalarP, KPtr(KPtr(KK(g))), VNull) : g \in UserKinds}
+  \cup {Case("ptr", TInt, ScalarP, KPtr(KK(g)), VI(x)) : g \in UserKinds, x \in {0, -7, 2147483647}}
+  \cup {Case("ptr", TInt, ScalarP, KPtr(KPtr(KK(g))), VI(5)) : g \in UserKinds}
+  \cup {Case("int", TInt, ScalarP, KK("um_v"), VInt(x)) : x \in {z \in IntAlphabet : FitsS(z, 32)}}
+  \cup {Case("null", NT(t), ScalarP, KK("nil"), VNull) : t \in ScalarTypes}
   \cup {Case("null", NT(t), ScalarP, KPtr(KK(NatKind(t))), VNull) : t \in ScalarTypes}
   \cup {Case("null", NT(t), ScalarP, KPtr(KPtr(KK(NatKind(t)))), VNull) : t \in {"int", "text", "varint"}}
 PtrCases ==
@@ -208,6 +213,12 @@ NestedV3 == {
   <<TSet(TUdt(<<TInt, TInt>>)), KSlice(KStruct(<<i32, i32>>)), L(<<Tu(<<I(1), I(2)>>)>>)>>,
   <<TTuple(<<TUdt(<<TInt, TText>>), TInt>>), KIfaces(<<KStruct(<<i32, str>>), i32>>), Tu(<<Tu(<<I(1), S(<<97>>)>>), I(9)>>)>>,
   <<TUdt(<<TUdt(<<TInt, TText>>), TInt>>), KStruct(<<KStruct(<<i32, str>>), i32>>), Tu(<<Tu(<<I(1), S(<<97>>)>>), I(9)>>)>>,
+  \* nil pointers to user Marshaler types as elements / fields: null
+  <<TList(TInt), KSlice(KPtr(KK("um_p"))), L(<<I(5), VNull>>)>>, <<TMap(TText, TInt), KMap(str, KPtr(KK("um_p"))), VMap(<<KV(S(<<97>>), VNull), KV(S(<<98>>), I(1))>>)>>,
+  <<T2, KIfaces(<<KPtr(KK("um_p")), str>>), Tu(<<VNull, S(<<97>>)>>)>>, <<T2, KIfaces(<<KPtr(KK("um_v")), KPtr(str)>>), Tu(<<VNull, VNull>>)>>,
+  <<T2, KStruct(<<KPtr(KK("um_p")), str>>), Tu(<<VNull, S(<<>>)>>)>>, <<T2, KStruct(<<KPtr(KK("um_v")), str>>), Tu(<<I(3), S(<<>>)>>)>>,
+  <<U2, KStruct(<<KPtr(KK("um_p")), KPtr(str)>>), Tu(<<VNull, S(<<97>>)>>)>>, <<U2, KUdtMap(<<KPtr(KK("um_v")), str>>), Tu(<<VNull, S(<<97>>)>>)>>,
+  <<U2, KStruct(<<KPtr(KK("um_p")), str>>), Tu(<<I(-1), S(<<97>>)>>)>>,
   \* UDT values with null trailing fields (also decoded from the short form that leaves them out)
   <<TUdt(<<TInt, TText, NT("bigint")>>), KStruct(<<KPtr(i32), KPtr(str), KPtr(KK("int64"))>>), Tu(<<I(1), VNull, VNull>>)>>,
   <<TUdt(<<TInt, TText, NT("bigint")>>), KStruct(<<KPtr(i32), KPtr(str), KPtr(KK("int64"))>>), Tu(<<I(2), S(<<98>>), VNull>>)>>,
@@ -240,7 +251,8 @@ LeafsQuick == {
   <<NT("date"), KK("time"), I(43200000)>>, <<NT("date"), KK("time_p9"), I(75600000)>>, <<NT("date"), KK("time_m5"), I(-75600000)>>, <<NT("timestamp"), KK("time_p9"), I(-1)>>, <<NT("date"), str, I(-1)>>, <<NT("date"), KK("int64"), I(86400000)>>, <<NT("date"), str, VEmpty>>,
   <<NT("duration"), KK("cdur"), VDur(B(-1), B(64), B(8192))>>, <<NT("duration"), KK("gdur"), I(64)>>,
   <<NT("uuid"), KK("uuid"), VBytes(Zeros(16))>>, <<NT("uuid"), str, VBytes([i \in 1 .. 16 |-> 255])>>, <<NT("timeuuid"), KK("arr16"), VBytes(<<254, 220, 186, 152, 118, 84, 17, 50, 128, 1, 2, 3, 4, 5, 6, 7>>)>>,
-  <<NT("inet"), KK("ip"), VBytes(<<127, 0, 0, 1>>)>>, <<NT("inet"), KK("ip"), VBytes(Zeros(15) \o <<1>>)>>, <<NT("inet"), str, VBytes(<<10, 1, 2, 3>>)>>
+  <<NT("inet"), KK("ip"), VBytes(<<127, 0, 0, 1>>)>>, <<NT("inet"), KK("ip"), VBytes(<<0, 0, 0, 0, 0, 0, 0, 0, 0, 0, 255, 255, 10, 0, 0, 1>>)>>,
+  <<NT("inet"), str, VBytes(<<0, 0, 0, 0, 0, 0, 0, 0, 0, 0, 255, 255, 192, 168, 0, 1>>)>>, <<TInt, KK("um_v"), I(-7)>>, <<TInt, KPtr(KK("um_p")), I(9)>>, <<NT("inet"), KK("ip"), VBytes(Zeros(15) \o <<1>>)>>, <<NT("inet"), str, VBytes(<<10, 1, 2, 3>>)>>
 }
 IntLeafs ==
   {<<NT(y[1]), KK(y[2]), VInt(y[3])>> :
@@ -322,7 +334,7 @@ PartialStructs(T) ==
   IF Len(T.es) > 3 THEN {}
   ELSE {KPStruct([j \in 1 .. Len(f) |-> TK(T.es[f[j]], 1)], f, FALSE) : f \in SubPerms(Len(T.es))}
        \cup {KPStruct([j \in 1 .. Len(f) |-> TK(T.es[f[j]], 2)], f, TRUE) : f \in SubPerms(Len(T.es))}
-ScalarKinds(t) == {g \in IntKinds \cup NamedUsed \cup {"bigint", "string", "bytes", "bool", "float32", "float64", "dec", "gdur", "time", "uuid", "arr16", "ip", "cdur"} : Target(t, g)}
+ScalarKinds(t) == {g \in IntKinds \cup NamedUsed \cup UserKinds \cup {"bigint", "string", "bytes", "bool", "float32", "float64", "dec", "gdur", "time", "uuid", "arr16", "ip", "cdur"} : Target(t, g)}
 Cand(T, cv) ==
   LET t == T.t IN
   IF t \in {"list", "set"} THEN
